@@ -124,7 +124,7 @@ def main():
     shape_attrs = {}
     for sh in data["shapes"]:
         UNIVERSE.update(sh["attrs"].keys())
-    UNIVERSE.update(["L", "ID", "VT", "EVT", "TT", "ET", "M", "SchemaTypeExpr", "Nesting"])
+    UNIVERSE.update(["InjectRoot", "InjectNested", "L", "ID", "VT", "EVT", "TT", "ET", "M", "SchemaTypeExpr", "Nesting"])
     for sh in data["shapes"]:
         sid = sh["id"]
         attrs = dict(sh["attrs"])
